@@ -35,10 +35,6 @@ type R struct {
 	// Genesis makes Gen emit `farm export` / `farm reimport` now and then (C12 runs only: the
 	// C05/C06/C13 histories stay what they were)
 	Genesis bool
-	// boundary: no message has been executed since the last block end (used by Gen only:
-	// re-imports are generated between blocks, where a real export is taken)
-	boundary        bool
-	pendingReimport bool
 }
 
 func New(env *hx.Env) *R {
@@ -95,7 +91,6 @@ func (r *R) Reset(ctx sdk.Context, line string) (sdk.Context, string) {
 	a := hx.Args(f[2:])
 	h, _ := strconv.ParseInt(a["h"], 10, 64)
 	ctx = hx.WithBlock(ctx, h, blockTime(h))
-	r.boundary = true
 	// two coinswap pools so that lpt-1 and lpt-2 are valid LP token denoms
 	setup := hx.Acc(99)
 	r.env.Fund(ctx, setup, sdk.NewCoins(sdk.NewInt64Coin("stake", 1000000), sdk.NewInt64Coin("btc", 1000), sdk.NewInt64Coin("eth", 1000)))
@@ -286,7 +281,7 @@ func (r *R) genesisLine(gs *farmtypes.GenesisState) string {
 		}
 		return strings.Join(x, ",")
 	}
-	return fmt.Sprintf("seq=%d fee=%s tax=%s maxcat=%d escrow=%d fiorder=%s pools=%s farmers=%s", gs.Sequence, gs.Params.PoolCreationFee.Amount,
+	return fmt.Sprintf("gseq=%d gfee=%s gtax=%s gmaxcat=%d escrow=%d fiorder=%s gpools=%s gfarmers=%s", gs.Sequence, gs.Params.PoolCreationFee.Amount,
 		gs.Params.TaxRate.BigInt().String(), gs.Params.MaxRewardCategories, len(gs.Escrow), order, j(ps), j(fs))
 }
 
@@ -319,14 +314,13 @@ func (r *R) Exec(ctx sdk.Context, line string) (sdk.Context, string) {
 	a := hx.Args(f[2:])
 	var msg sdk.Msg
 	switch f[1] {
-	case "export", "reimport":
-	case "end_block":
-		r.boundary = true
-	default:
-		r.boundary = false
-	}
-	switch f[1] {
 	case "export":
+		// an application exports committed state: finish the current block first
+		var ended bool
+		ctx, ended = r.closeBlock(ctx)
+		if !ended {
+			return ctx, "panic validate=- gseq=- gfee=- gtax=- gmaxcat=- escrow=- fiorder=- gpools=- gfarmers=- reward=- " + r.state(ctx)
+		}
 		gs := farmmod.ExportGenesis(ctx, r.env.Farm)
 		v := "ok"
 		if p, _ := hx.NoPanic(func() {
@@ -336,8 +330,15 @@ func (r *R) Exec(ctx sdk.Context, line string) (sdk.Context, string) {
 		}); p {
 			v = "panic"
 		}
-		return ctx, fmt.Sprintf("ok validate=%s %s", v, r.genesisLine(gs))
+		return ctx, fmt.Sprintf("ok validate=%s %s reward=- %s", v, r.genesisLine(gs), r.state(ctx))
 	case "reimport":
+		// finish the current block, export, wipe the module store, InitGenesis at the next height
+		var ended bool
+		ctx, ended = r.closeBlock(ctx)
+		if !ended {
+			return ctx, "panic same=- reward=- " + r.state(ctx)
+		}
+		before := r.state(ctx)
 		gs := farmmod.ExportGenesis(ctx, r.env.Farm)
 		class, _ := hx.Try(ctx, func(c sdk.Context) error {
 			st := c.KVStore(r.env.App.GetKey(farmtypes.StoreKey))
@@ -353,7 +354,12 @@ func (r *R) Exec(ctx sdk.Context, line string) (sdk.Context, string) {
 			farmmod.InitGenesis(c, r.env.Farm, *gs)
 			return nil
 		})
-		return ctx, class + " reward=- " + r.state(ctx)
+		after := r.state(ctx)
+		same := 0
+		if before == after {
+			same = 1
+		}
+		return ctx, fmt.Sprintf("%s same=%d reward=- %s", class, same, after)
 	case "end_block":
 		n, err := strconv.Atoi(a["n"])
 		if err != nil || n < 1 {
@@ -415,6 +421,39 @@ func (r *R) Exec(ctx sdk.Context, line string) (sdk.Context, string) {
 		}
 	}
 	return ctx, out.Class + " reward=" + reward + " " + r.state(ctx)
+}
+
+// closeBlock finishes the current block as the chain would: the farm EndBlocker at the current
+// height (a panicking one is discarded and reported), then the next height.
+func (r *R) closeBlock(ctx sdk.Context) (sdk.Context, bool) {
+	cctx, write := ctx.CacheContext()
+	if p, _ := hx.NoPanic(func() { farmmod.EndBlocker(cctx, r.env.Farm) }); p {
+		return ctx, false
+	}
+	write()
+	h := ctx.BlockHeight() + 1
+	return hx.WithBlock(ctx, h, blockTime(h)), true
+}
+
+// CloseBlock implements hx.BlockCloser: exports are taken at block boundaries.
+func (r *R) CloseBlock(ctx sdk.Context) sdk.Context {
+	ctx, _ = r.closeBlock(ctx)
+	return ctx
+}
+
+// Continuation implements hx.Continuer: block ends up to the last pool end height of ctx.
+func (r *R) Continuation(ctx sdk.Context) []string {
+	last := ctx.BlockHeight()
+	r.env.Farm.IteratorAllPools(ctx, func(p farmtypes.FarmPool) {
+		if p.EndHeight > last {
+			last = p.EndHeight
+		}
+	})
+	n := last - ctx.BlockHeight() + 2
+	if n > 3000 {
+		n = 3000
+	}
+	return []string{fmt.Sprintf("farm end_block n=%d", n)}
 }
 
 // State is the canonical projection of the farm state and the ledgers it talks about (the
